@@ -13,6 +13,17 @@ Variable agree : nat -> Src -> Src -> Prop.
 Notation steps := (steps m).
 Notation scratch_run := (scratch_run m).
 
+Lemma steps_S src st i n :
+  steps src st i (S n) =
+  match step m src st i with
+  | Ok (st', o) => let '(os, r) := steps src st' (S i) n in (o :: os, r)
+  | Err e => ([], Err e)
+  | Panic => ([], Panic)
+  end.
+Proof. reflexivity. Qed.
+Lemma steps_O src st i : steps src st i 0 = ([], Ok st).
+Proof. reflexivity. Qed.
+
 Lemma steps_split src st i a b :
   steps src st i (a + b) =
   let '(o1, r1) := steps src st i a in
@@ -23,9 +34,9 @@ Lemma steps_split src st i a b :
   end.
 Proof.
   revert st i. induction a as [|a IH]; intros st i.
-  - cbn [Nat.add EDriver.steps]. replace (i + 0)%nat with i by lia.
+  - cbn [Nat.add]. rewrite steps_O. replace (i + 0)%nat with i by lia.
     destruct (steps src st i b) as [o2 r2]. reflexivity.
-  - cbn [Nat.add EDriver.steps]. destruct (step m src st i) as [[st' o]| |]; try reflexivity.
+  - cbn [Nat.add]. rewrite !steps_S. destruct (step m src st i) as [[st' o]| |]; try reflexivity.
     rewrite IH. destruct (steps src st' (S i) a) as [o1 r1].
     replace (i + S a)%nat with (S i + a)%nat by lia.
     destruct r1 as [st1| |]; try reflexivity.
@@ -40,13 +51,13 @@ Proof.
   revert st i outs r. induction n as [|n IH]; intros st i outs r H.
   - cbn in H. inversion H; subst. cbn. split; [lia|]. split; [eauto|].
     intros s2 E2. inversion E2; subst. auto.
-  - cbn [EDriver.steps] in H. destruct (step m src st i) as [[st1 o]| |] eqn:Es.
+  - rewrite steps_S in H. destruct (step m src st i) as [[st1 o]| |] eqn:Es.
     + destruct (steps src st1 (S i) n) as [os r1] eqn:E1. inversion H; subst.
       destruct (IH _ _ _ _ E1) as (Hl & (st' & Hp) & Hok).
       cbn [length]. split; [lia|]. split.
-      * exists st'. cbn [EDriver.steps]. rewrite Es, Hp. reflexivity.
+      * exists st'. rewrite steps_S. rewrite Es, Hp. reflexivity.
       * intros st2 E. destruct (Hok _ E) as [Hn Hs]. split; [lia|].
-        cbn [EDriver.steps]. rewrite Es, E1. subst r. reflexivity.
+        rewrite steps_S. rewrite Es, E1. subst r. reflexivity.
     + inversion H; subst. cbn. split; [lia|]. split; [eauto|discriminate].
     + inversion H; subst. cbn. split; [lia|]. split; [eauto|discriminate].
 Qed.
@@ -125,15 +136,9 @@ Lemma meta_eq_refl v : meta_eq v v. Proof. unfold meta_eq; tauto. Qed.
 Lemma push_all_ok v os :
   exists v', push_all v (vlen v) os = Ok v' /\ stored v' = stored v /\ pushed v' = pushed v ++ os /\ meta_eq v v'.
 Proof.
-  revert v. induction os as [|o t IH]; intros v.
+  destruct os as [|o t].
   - exists v. cbn. rewrite app_nil_r. auto using meta_eq_refl.
-  - cbn [push_all]. unfold checked_push_at. rewrite Nat.eqb_refl. cbn [bind].
-    set (v1 := mkVec _ _ _ _ _ _ _ _ _).
-    assert (Hl : S (vlen v) = vlen v1) by (unfold vlen, v1; cbn; rewrite app_length; cbn; lia).
-    rewrite Hl. destruct (IH v1) as (v' & E & Hs & Hp & Hm). exists v'. rewrite E.
-    split; [reflexivity|]. split; [exact Hs|]. split.
-    + rewrite Hp. unfold v1. cbn. now rewrite <- app_assoc.
-    + unfold meta_eq in *. unfold v1 in Hm. cbn in Hm. tauto.
+  - unfold push_all. rewrite Nat.eqb_refl. eexists. split; [reflexivity|]. cbn. unfold meta_eq. cbn. tauto.
 Qed.
 
 Variable Dom : Src -> Prop.
